@@ -1,5 +1,6 @@
 #!/usr/bin/env python3
-"""Apply every seeded change in turn, run the quick tier of the named checks (default: the property's own check), record the
+"""usage: seedmatrix.py [--no-write] [--round2 | Cxx | Cxx_r2 ...]
+Apply every seeded change in turn, run the quick tier of the named checks (default: the property's own check), record the
 violation keys in seeded/Cxx/meta.json (`caught_by`) and restore /repo.  Never run while something else reads /repo."""
 import json
 import os
@@ -17,7 +18,7 @@ def sh(cmd, **kw):
 
 def main():
     write = "--no-write" not in sys.argv
-    seeds = [a for a in sys.argv[1:] if not a.startswith("--")] or ["C%02d" % i for i in range(1, 21)]
+    seeds = [a for a in sys.argv[1:] if not a.startswith("--")] or [("C%02d_r2" if "--round2" in sys.argv else "C%02d") % i for i in range(1, 21)]
     if sh("git -C /repo status --porcelain").stdout.strip():
         sys.exit("refusing: /repo has uncommitted changes")
     for sd in seeds:
@@ -28,7 +29,7 @@ def main():
             print(sd, "patch does not apply:", r.stdout.strip())
             continue
         try:
-            out = sh("%s %s/tools/vcheck.py %s --tier quick" % (PY, ROOT, sd), cwd=ROOT).stdout
+            out = sh("%s %s/tools/vcheck.py %s --tier quick" % (PY, ROOT, sd[:3]), cwd=ROOT).stdout      # seeded/C07_r2 breaks property C07
         finally:
             sh("git -C /repo checkout -- .")
         keys = re.findall(r"VIOLATION property=(C\d\d) replay=\S*/(?:violation_)?([A-Za-z0-9_\-\.]+?)\.json( no-failing-input-found)?", out)
